@@ -433,3 +433,208 @@ theorem normStr_id (s : Str) (h : spLine s = true → s = ['\n']) : normStr s = 
   · simp [hs]
 
 end Mistletoe.Block
+
+namespace Mistletoe.Props.C04
+open Mistletoe Mistletoe.Py Mistletoe.Scan Mistletoe.Block
+open Mistletoe.Props.C14 (defaultTypes markdownTypes numbered numbered_cons)
+
+/-! ### C04, list half, general form
+
+  Relative to `C04_item_wraps_eq` / `C04_item_wraps_partial` / `C04_item_phase_partial`:
+
+  * (H3) is gone: the marker may stand at indentation `i` = 0 … 3; the other lines are indented by
+    `i + |m| + pad`; the item reports indentation `i` and content offset `i + |m| + pad`.
+  * (H2) is gone: a blank line may be any line of spaces ("\n", "  \n", "        \n", …), left as it is or indented
+    like the others (`blanksToo`).  `ListItem.parse_continuation` hands every such line to the nested tokenizer as
+    "\n", so the item's content is the parse of the text *with its spaces-only lines replaced by "\n"* (`normStr`) —
+    not of the text itself: see `spaces4_*` and `fenced_*` below for texts on which the two parses differ, on the
+    model and on the implementation.  When every blank line of the text is "\n" the two texts are the same text
+    (`C04_item_phase_general_h2_partial`); for a given text the equality of the two parses can be checked by
+    evaluation (`C04_item_phase_general_same_partial`, hypothesis `hsame`).
+  * (H1) was already as weak as the model allows, apart from the spaces-only lines: `ContLine` lets a line begin with
+    any number of spaces of its own (indented code, nested items, lazy lines …); what it asks is that the first
+    character after them be no whitespace character.  In a tab-free line that ends with its only newline this excludes
+    exactly a line whose first non-space character is one of the other `str.isspace` characters (U+000B, U+000C,
+    U+001C-1F, U+0085, U+00A0, U+1680, U+2000-200A, U+2028/9, U+202F, U+205F, U+3000, '\r'): `continuation_pattern`
+    (`[ \t]*` then `\S`) does not match such a line, indented or not, the lazy-continuation branch takes it with its
+    indentation or ends the item — recorded finding "unicode-whitespace-edge", example `edge` in Props/C04.
+
+  Remaining hypotheses, each needed (examples at the end of the file):
+  * `i ≤ 3` — at indentation 4 the marker line is indented code;
+  * `1 ≤ pad ≤ 4` — with five spaces `parse_marker` counts one of them and leaves four to the content;
+  * the first character of the text is no `str.isspace` character (`hc0`) — `ListItem.pattern` takes every whitespace
+    character after the marker (`\s+`) as padding, U+2003 included, so the content offset grows beyond `|m| + pad`;
+  * marker + first line is not a thematic break (`htb`; automatic unless the marker is '-' or '*':
+    `C04_htb_of_marker`) — `ThematicBreak` is consulted before `List`;
+  * every other line is a spaces-only line or a `ContLine` (`hcont`), the last line is not spaces-only (`hlast`, the
+    property's "does not end in a blank line": `ListItem.read` drops trailing blank lines from the item and steps back);
+  * `List` is consulted before `Paragraph` and `Table` (`hnp`, `hnt`; true of every shipped configuration). -/
+
+/-- **Equation form.** -/
+theorem C04_item_wraps_general_eq (cfg : Cfg) (pre post : List BTok) (hty : cfg.types = pre ++ .list :: post)
+    (hnl : .list ∉ pre) (hnp : .paragraph ∉ pre) (hnt : .table ∉ pre)
+    (m : Str) (hm : ListLeader m) (i : Nat) (hi : i ≤ 3) (pad : Nat) (h1 : 1 ≤ pad) (h4 : pad ≤ 4)
+    (l0' l0 : Line) (rest' rest : List Line) (hf : FirstAsAt i m pad l0' l0) (htb : Scan.thematicBreak l0'.s = false)
+    (hrest : IndentedAll2 (i + m.length + pad) rest' rest) (hlast : trailNl 0 rest = 0) (start : Nat) (st : St) (g : Nat) :
+    tokenizeBlock cfg (g + (pre.length + 4)) (l0' :: rest') start st =
+      wrapItemAt i (i + m.length + pad) m start l0.origin (tokenizeBlock cfg g (l0 :: rest) start st) :=
+  tokenizeBlock_indented2 cfg pre post hty hnl hnp hnt m hm i (by omega) pad h1 h4 l0' l0 rest' rest hf htb hrest hlast start st g
+
+/-- **A buffer indented as one list item parses to one single-item list whose content is the parse of the
+    buffer (spaces-only lines read as "\n").**  `cfg.types = pre ++ List :: post` with none of `List`, `Paragraph`,
+    `Table` in `pre`; `m` a list marker (`ListLeader`), written at indentation `i` ≤ 3, `pad` = 1 … 4 spaces after it.
+    The buffer `l0 :: ls`: `l0` begins with a non-whitespace character; every other line is a spaces-only line or
+    has a non-whitespace character after its leading spaces and ends with its only newline; the last line is not
+    spaces-only; marker + first line is not a thematic break.  If `tokenize_block` on `l0 :: ls.map normLine` returns
+    `(b, st')`, then on the buffer with `i` spaces, `m` and `pad` spaces before the first line and `i + |m| + pad`
+    spaces before every other line (`blanksToo = false`: except the spaces-only lines), with `pre.length + 4` more
+    gas, it returns exactly one `List` of one `ListItem` with content `b.entries`, loose iff `b` is loose and has more
+    than one entry, indentation `i`, content offset `i + |m| + pad`, leader `m` — and the same state `st'`, hence the
+    same link definitions. -/
+theorem C04_item_wraps_general_partial (cfg : Cfg) (pre post : List BTok) (hty : cfg.types = pre ++ .list :: post)
+    (hnl : .list ∉ pre) (hnp : .paragraph ∉ pre) (hnt : .table ∉ pre)
+    (m : Str) (hm : ListLeader m) (i : Nat) (hi : i ≤ 3) (pad : Nat) (h1 : 1 ≤ pad) (h4 : pad ≤ 4)
+    (l0 : Line) (ls : List Line) (c0 : Char) (r0 : Str) (hs : l0.s = c0 :: r0) (hc0 : pyIsSpace c0 = false)
+    (hcont : ∀ l ∈ ls, spLine l.s = true ∨ ContLine l.s)
+    (hlast : ∀ l, ls.getLast? = some l → spLine l.s = false)
+    (htb : Scan.thematicBreak (List.replicate i ' ' ++ (m ++ List.replicate pad ' ' ++ l0.s)) = false)
+    (blanksToo : Bool) (start : Nat) (st st' : St) (gas : Nat) (b : Buf)
+    (hb : tokenizeBlock cfg gas (l0 :: ls.map normLine) start st = .ok (b, st')) :
+    tokenizeBlock cfg (gas + (pre.length + 4))
+        (markLineAt i m pad l0 :: ls.map (indentLine2 blanksToo (i + m.length + pad))) start st =
+      .ok ({ entries := [.list [.mk b.entries (decide (b.entries.length > 1) && b.loose) i (i + m.length + pad) m start l0.origin]
+                           start l0.origin], loose := false }, st') := by
+  rw [C04_item_wraps_general_eq cfg pre post hty hnl hnp hnt m hm i hi pad h1 h4 (markLineAt i m pad l0) l0 _ (ls.map normLine)
+    (firstAsAt_mark i m pad l0 c0 r0 hs hc0) htb (indentedAll2_map blanksToo _ ls hcont) (trailNl_norm_zero ls hlast) start st gas, hb]
+  rfl
+
+/-- the thematic-break hypothesis holds by itself unless the marker is the bullet '-' or '*' -/
+theorem C04_htb_of_marker (m : Str) (hm : ListLeader m) (i : Nat) (hi : i ≤ 3) (rest : Str)
+    (h : ∀ c m', m = c :: m' → c ≠ '-' ∧ c ≠ '*') :
+    Scan.thematicBreak (List.replicate i ' ' ++ (m ++ rest)) = false := by
+  obtain ⟨c, m', rfl, hc⟩ := hm.lead
+  have hcc := h c m' rfl
+  have hus : c ≠ '_' := by
+    intro e; subst e
+    have := hm.marker []
+    have hd : isDigit '_' = false := by decide
+    simp [listMarker, span, hd] at this
+  exact leadSp_thematicBreak hc i (by omega) _ hcc.1 hus hcc.2
+
+/-- the document text indented as one list item whose marker stands at indentation `i` -/
+def indentDocAt (i : Nat) (m : Str) (pad : Nat) (blanksToo : Bool) : List Str → List Str
+  | [] => []
+  | s0 :: ss => (List.replicate i ' ' ++ (m ++ List.replicate pad ' ' ++ s0)) :: ss.map (indentStr2 blanksToo (i + m.length + pad))
+
+/-- the text as the nested tokenizer gets it: spaces-only lines replaced by "\n" -/
+def normDoc : List Str → List Str
+  | [] => []
+  | s0 :: ss => s0 :: ss.map normStr
+
+theorem numbered_map_fn (f : Str → Str) : ∀ (k : Nat) (ss : List Str),
+    numbered k (ss.map f) = (numbered k ss).map (fun l => { s := f l.s, origin := l.origin })
+  | _, [] => rfl
+  | k, s :: ss => by
+    rw [List.map_cons, numbered_cons, numbered_cons, List.map_cons, numbered_map_fn f (k + 1) ss]
+
+/-- checkable form of the hypotheses on the document: the first line begins with a non-whitespace character;
+    every other line is spaces-only or `contLineB`; the last line is not spaces-only -/
+def itemDocOk2 : List Str → Bool
+  | [] => false
+  | s0 :: ss => (match s0 with | c :: _ => !pyIsSpace c | [] => false)
+      && ss.all (fun s => spLine s || contLineB s) && (match ss.getLast? with | some s => !spLine s | none => true)
+
+/-- **Block phase: the document indented as one list item parses to one single-item list whose content is the
+    parse B of the document with its spaces-only lines read as "\n", with B's link definitions.** -/
+theorem C04_item_phase_general_partial (cfg : Cfg) (pre post : List BTok) (hty : cfg.types = pre ++ .list :: post)
+    (hnl : .list ∉ pre) (hnp : .paragraph ∉ pre) (hnt : .table ∉ pre)
+    (m : Str) (hm : ListLeader m) (i : Nat) (hi : i ≤ 3) (pad : Nat) (h1 : 1 ≤ pad) (h4 : pad ≤ 4)
+    (s0 : Str) (ss : List Str) (hok : itemDocOk2 (s0 :: ss) = true)
+    (htb : Scan.thematicBreak (List.replicate i ' ' ++ (m ++ List.replicate pad ' ' ++ s0)) = false)
+    (blanksToo : Bool) (gas : Nat) (B : Buf) (st' : St) (hB : blockPhase cfg gas (normDoc (s0 :: ss)) = .ok (B, st')) :
+    blockPhase cfg (gas + (pre.length + 4)) (indentDocAt i m pad blanksToo (s0 :: ss)) =
+      .ok ({ entries := [.list [.mk B.entries (decide (B.entries.length > 1) && B.loose) i (i + m.length + pad) m 1 1] 1 1],
+             loose := false }, st') := by
+  have e : ∀ g ls, blockPhase cfg g ls = tokenizeBlock cfg g (numbered 0 ls) 1 {} := fun _ _ => rfl
+  simp only [itemDocOk2, Bool.and_eq_true, List.all_eq_true, Bool.or_eq_true] at hok
+  obtain ⟨⟨h0, hall⟩, hlast⟩ := hok
+  cases s0 with
+  | nil => simp at h0
+  | cons c0 r0 =>
+    simp only [Bool.not_eq_eq_eq_not, Bool.not_true] at h0
+    simp only [normDoc] at hB
+    rw [e, numbered_cons, numbered_map_fn] at hB
+    rw [e]
+    simp only [indentDocAt]
+    rw [numbered_cons, numbered_map_fn]
+    refine C04_item_wraps_general_partial cfg pre post hty hnl hnp hnt m hm i hi pad h1 h4 { s := c0 :: r0, origin := 0 + 1 }
+      (numbered (0 + 1) ss) c0 r0 rfl h0 ?_ ?_ htb blanksToo 1 {} st' gas B hB
+    · intro l hl
+      rcases hall _ (C14.numbered_mem _ _ _ hl) with h | h
+      · exact Or.inl h
+      · exact Or.inr (contLine_of _ h)
+    · intro l hl
+      have : (numbered (0 + 1) ss).map (·.s) = ss := C14.numbered_s _ _
+      have h2 : ss.getLast? = some l.s := by rw [← this, List.getLast?_map, hl]; rfl
+      rw [h2] at hlast
+      simpa using hlast
+
+/-- the content is the document's own parse B whenever reading the spaces-only lines as "\n" does not change the
+    parse (`hsame`: for a given document, by evaluation) -/
+theorem C04_item_phase_general_same_partial (cfg : Cfg) (pre post : List BTok) (hty : cfg.types = pre ++ .list :: post)
+    (hnl : .list ∉ pre) (hnp : .paragraph ∉ pre) (hnt : .table ∉ pre)
+    (m : Str) (hm : ListLeader m) (i : Nat) (hi : i ≤ 3) (pad : Nat) (h1 : 1 ≤ pad) (h4 : pad ≤ 4)
+    (s0 : Str) (ss : List Str) (hok : itemDocOk2 (s0 :: ss) = true)
+    (htb : Scan.thematicBreak (List.replicate i ' ' ++ (m ++ List.replicate pad ' ' ++ s0)) = false)
+    (blanksToo : Bool) (gas : Nat) (hsame : blockPhase cfg gas (normDoc (s0 :: ss)) = blockPhase cfg gas (s0 :: ss))
+    (B : Buf) (st' : St) (hB : blockPhase cfg gas (s0 :: ss) = .ok (B, st')) :
+    blockPhase cfg (gas + (pre.length + 4)) (indentDocAt i m pad blanksToo (s0 :: ss)) =
+      .ok ({ entries := [.list [.mk B.entries (decide (B.entries.length > 1) && B.loose) i (i + m.length + pad) m 1 1] 1 1],
+             loose := false }, st') :=
+  C04_item_phase_general_partial cfg pre post hty hnl hnp hnt m hm i hi pad h1 h4 s0 ss hok htb blanksToo gas B st' (hsame ▸ hB)
+
+/-- under (H2) — every blank line of the text is "\n" — the content is the document's own parse B -/
+theorem C04_item_phase_general_h2_partial (cfg : Cfg) (pre post : List BTok) (hty : cfg.types = pre ++ .list :: post)
+    (hnl : .list ∉ pre) (hnp : .paragraph ∉ pre) (hnt : .table ∉ pre)
+    (m : Str) (hm : ListLeader m) (i : Nat) (hi : i ≤ 3) (pad : Nat) (h1 : 1 ≤ pad) (h4 : pad ≤ 4)
+    (s0 : Str) (ss : List Str) (hok : itemDocOk2 (s0 :: ss) = true) (hH2 : ∀ s ∈ ss, spLine s = true → s = ['\n'])
+    (htb : Scan.thematicBreak (List.replicate i ' ' ++ (m ++ List.replicate pad ' ' ++ s0)) = false)
+    (blanksToo : Bool) (gas : Nat) (B : Buf) (st' : St) (hB : blockPhase cfg gas (s0 :: ss) = .ok (B, st')) :
+    blockPhase cfg (gas + (pre.length + 4)) (indentDocAt i m pad blanksToo (s0 :: ss)) =
+      .ok ({ entries := [.list [.mk B.entries (decide (B.entries.length > 1) && B.loose) i (i + m.length + pad) m 1 1] 1 1],
+             loose := false }, st') := by
+  refine C04_item_phase_general_same_partial cfg pre post hty hnl hnp hnt m hm i hi pad h1 h4 s0 ss hok htb blanksToo gas ?_ B st' hB
+  have : ss.map normStr = ss := by
+    conv => rhs; rw [← List.map_id ss]
+    exact List.map_congr_left (fun s hs => normStr_id s (hH2 s hs))
+  simp only [normDoc, this]
+
+/-- the default token types, either `tableInterrupt` -/
+theorem C04_item_phase_general_default_partial (ti : Bool) (m : Str) (hm : ListLeader m) (i : Nat) (hi : i ≤ 3)
+    (pad : Nat) (h1 : 1 ≤ pad) (h4 : pad ≤ 4)
+    (s0 : Str) (ss : List Str) (hok : itemDocOk2 (s0 :: ss) = true)
+    (htb : Scan.thematicBreak (List.replicate i ' ' ++ (m ++ List.replicate pad ' ' ++ s0)) = false)
+    (blanksToo : Bool) (gas : Nat) (B : Buf) (st' : St)
+    (hB : blockPhase { types := defaultTypes, tableInterrupt := ti } gas (normDoc (s0 :: ss)) = .ok (B, st')) :
+    blockPhase { types := defaultTypes, tableInterrupt := ti } (gas + 10) (indentDocAt i m pad blanksToo (s0 :: ss)) =
+      .ok ({ entries := [.list [.mk B.entries (decide (B.entries.length > 1) && B.loose) i (i + m.length + pad) m 1 1] 1 1],
+             loose := false }, st') :=
+  C04_item_phase_general_partial { types := defaultTypes, tableInterrupt := ti }
+    [.htmlBlock, .blockCode, .heading, .quote, .codeFence, .thematicBreak] [.table, .footnote, .paragraph] rfl
+    (by decide) (by decide) (by decide) m hm i hi pad h1 h4 s0 ss hok htb blanksToo gas B st' hB
+
+/-- the Markdown renderer's token types, either `tableInterrupt` -/
+theorem C04_item_phase_general_markdown_partial (ti : Bool) (m : Str) (hm : ListLeader m) (i : Nat) (hi : i ≤ 3)
+    (pad : Nat) (h1 : 1 ≤ pad) (h4 : pad ≤ 4)
+    (s0 : Str) (ss : List Str) (hok : itemDocOk2 (s0 :: ss) = true)
+    (htb : Scan.thematicBreak (List.replicate i ' ' ++ (m ++ List.replicate pad ' ' ++ s0)) = false)
+    (blanksToo : Bool) (gas : Nat) (B : Buf) (st' : St)
+    (hB : blockPhase { types := markdownTypes, tableInterrupt := ti } gas (normDoc (s0 :: ss)) = .ok (B, st')) :
+    blockPhase { types := markdownTypes, tableInterrupt := ti } (gas + 12) (indentDocAt i m pad blanksToo (s0 :: ss)) =
+      .ok ({ entries := [.list [.mk B.entries (decide (B.entries.length > 1) && B.loose) i (i + m.length + pad) m 1 1] 1 1],
+             loose := false }, st') :=
+  C04_item_phase_general_partial { types := markdownTypes, tableInterrupt := ti }
+    [.linkRefDefBlock, .blankLine, .htmlBlock, .blockCode, .heading, .quote, .codeFence, .thematicBreak]
+    [.table, .paragraph] rfl (by decide) (by decide) (by decide) m hm i hi pad h1 h4 s0 ss hok htb blanksToo gas B st' hB
+
+end Mistletoe.Props.C04
